@@ -3,6 +3,8 @@ import CoclsModel.LockDisc
 import CoclsModel.Generated.AtomicSites
 import CoclsModel.Generated.LockTables
 import CoclsModel.Generated.SharedAccess
+import CoclsModel.LockProg
+import CoclsModel.Generated.LockProgs
 /-!
 # C03 — cross-thread operations are data-race free and publish results safely
 
@@ -312,5 +314,38 @@ theorem c03_rmw_shapes :
 
 /-- non-vacuity: the current table resolves every protocol -/
 example : (protocols.map (fun p => (ordersOf Generated.atomicSites p).isSome)).all id = true := by decide
+
+
+/-! ### Lock discipline from the *structured* member functions (extract/lockprog.py transcribes syntax only)
+
+`Generated.LockProgs.allLockProgs` holds, for every member function of the mutex-guarded classes that takes the lock or touches a
+guarded field, its statement structure (sequence / if / loops / early return / RAII lock scopes / `unlock()`-`lock()` / condition
+waits / inlined `*_lk` helpers / `co_await`) over `LockDisc.Act`.  The branch- and loop-sensitive lock-state reasoning is
+`LockProg.check` — a Lean function, proved sound (`LockProg.check_sound`, `checkFn_sound`): every linearisation (all branch
+outcomes, any number of loop iterations, an exception leaving any construct) of a function the checker accepts is a
+`LockDisc.Balanced` act sequence.  So the translator is trusted for the transcription of syntax, not for the reasoning. -/
+
+/-- every extracted member function keeps the lock discipline on every path (entries from the free state and ending free on every
+exit; `*_lk` helpers from the held state) -/
+theorem c03_lock_programs_disciplined :
+    Generated.LockProgs.allLockProgs.all LockProg.LockFn.ok = true := by decide
+
+/-- the structured extraction and the flat guarded-access table name the same (class, function, field) triples: the two
+extractions cross-check each other -/
+theorem c03_lock_programs_cover :
+    LockProg.sameTriples Generated.LockProgs.lockFields Generated.LockProgs.allLockProgs
+      Generated.guardedAccesses = true := by decide
+
+/-- every guarded class of the library is present with at least one entry point (an empty table would make the two theorems above vacuous) -/
+theorem c03_lock_programs_classes :
+    ["queue", "limited_queue", "thread_pool", "scheduler", "publisher::queue"].all
+      (fun c => Generated.LockProgs.allLockProgs.any (fun f => f.cls == c && f.entry)) = true := by decide
+
+/-- race freedom on the guarded fields for ANY number of threads, each calling ANY sequence of the extracted entry points, each
+call following ANY of its control paths, under EVERY schedule -/
+theorem c03_lock_programs_safe (calls : Nat → List (List LockDisc.Act))
+    (hc : ∀ t, ∀ c ∈ calls t, ∃ f ∈ Generated.LockProgs.allLockProgs, f.entry = true ∧ LockProg.Lin f.prog c) :
+    ∀ sched : List Nat, (LockDisc.run (fun t => (calls t).flatten) sched).raced = false :=
+  LockProg.lockfns_safe _ c03_lock_programs_disciplined calls hc
 
 end Cocls.C03
